@@ -68,6 +68,24 @@
 #include <string.h>
 #include <assert.h>
 #include <signal.h>
+
+/* fault injection (-Wl,--wrap=malloc): "F<k> <command>" executes the command with the k-th malloc of the
+ * LIBRARY refused (the static inline code of the headers above and the library sources call the wrapped
+ * malloc; the harness itself uses the real one).  If the command then reports an error it is executed a
+ * second time, without fault, and its result line is prefixed by "ferr": an operation that reported an
+ * error must have left everything unchanged, so the second attempt and every later call behave as if the
+ * first had not happened. */
+void *__real_malloc(size_t n);
+static int malloc_cd, malloc_refused;
+void *__wrap_malloc(size_t n)
+{
+    if (malloc_cd > 0 && --malloc_cd == 0) {
+        malloc_refused++;
+        return NULL;
+    }
+    return __real_malloc(n);
+}
+#define malloc(n) __real_malloc(n)
 #include <unistd.h>
 
 #define NH   32
@@ -770,6 +788,24 @@ int main(int argc, char **argv)
             teardown();
             setup();
             printf("reset\n");
+        } else if (t[0][0] == 'F' && t[0][1] >= '1' && t[0][1] <= '9' && nt > 1) {
+            char *buf = NULL;
+            size_t len = 0;
+            FILE *mem = open_memstream(&buf, &len), *save = stdout;
+            int before = malloc_refused;
+            stdout = mem;
+            malloc_cd = atoi(t[0] + 1);
+            exec_cmd(nt - 1, t + 1);
+            malloc_cd = 0;
+            fflush(mem);
+            stdout = save;
+            fclose(mem);
+            if (malloc_refused != before && buf != NULL && !strncmp(buf, "err", 3)) {
+                printf("ferr ");
+                exec_cmd(nt - 1, t + 1);
+            } else
+                fputs(buf ? buf : "bad\n", stdout);
+            free(buf);
         } else
             exec_cmd(nt, t);
         fflush(stdout);
